@@ -250,6 +250,7 @@ func mkFid(c *go9p.Clnt, n uint32) *go9p.Fid {
 // clients, fid counter) back to its initial value, so that executions neither
 // leak into each other nor depend on how many ran before.
 func resetClientGlobals() {
+	resetPlainGlobals()
 	g := go9p.VsGlobals()
 	if p, ok := g["clnts"].(**go9p.ClntList); ok {
 		*p = new(go9p.ClntList)
@@ -262,6 +263,7 @@ func resetClientGlobals() {
 // resetServerGlobals zeroes the package-level user cache (OsUsers and its
 // sync.Once), so that every execution starts from the same state.
 func resetServerGlobals() {
+	resetPlainGlobals()
 	g := go9p.VsGlobals()
 	for _, n := range []string{"OsUsers", "once"} {
 		if p, ok := g[n]; ok {
@@ -270,5 +272,44 @@ func resetServerGlobals() {
 				v.Elem().Set(reflect.Zero(v.Elem().Type()))
 			}
 		}
+	}
+}
+
+// Every package-level variable of the library that holds plain data (numbers, booleans,
+// strings) or started out nil is put back to its initial value at the start of an
+// execution: state that is set "once per process" (a counter of warnings already
+// printed, a lazily made table) must be set afresh in every execution, or only the
+// first one - the determinism self-test - would ever see it being set.
+var plainGlobals = map[string]reflect.Value{}
+var nilGlobals = map[string]bool{}
+
+func init() {
+	for n, p := range go9p.VsGlobals() {
+		v := reflect.ValueOf(p)
+		if v.Kind() != reflect.Ptr || !v.Elem().CanSet() {
+			continue
+		}
+		e := v.Elem()
+		switch e.Kind() {
+		case reflect.Bool, reflect.Int, reflect.Int8, reflect.Int16, reflect.Int32, reflect.Int64, reflect.Uint, reflect.Uint8, reflect.Uint16, reflect.Uint32, reflect.Uint64, reflect.Uintptr, reflect.Float32, reflect.Float64, reflect.String:
+			c := reflect.New(e.Type()).Elem()
+			c.Set(e)
+			plainGlobals[n] = c
+		case reflect.Ptr, reflect.Map, reflect.Slice, reflect.Chan, reflect.Func, reflect.Interface:
+			if e.IsNil() {
+				nilGlobals[n] = true
+			}
+		}
+	}
+}
+
+func resetPlainGlobals() {
+	g := go9p.VsGlobals()
+	for n, c := range plainGlobals {
+		reflect.ValueOf(g[n]).Elem().Set(c)
+	}
+	for n := range nilGlobals {
+		e := reflect.ValueOf(g[n]).Elem()
+		e.Set(reflect.Zero(e.Type()))
 	}
 }
